@@ -372,6 +372,8 @@ def seq_method(run, s, attr, args, kwargs, node):
         o = args[0]
         if isinstance(o, VTuple):
             o = ops.seq_from_items(run, o.items, ty)
+        if isinstance(o, Val) and o.ty != ty and run.x.reg.stubs.get(("coerce", o.ty.name, ty.name)):
+            o = run.coerce(o, ty)
         o = ops.iter_to_seq(run, o, node)
         return NONE, Val(ty, z3.Concat(t, o.t))
     if attr == "pop":
@@ -457,6 +459,9 @@ def dict_method(run, d, attr, args, kwargs, node):
         new = ops.setitem(run, d, k, args[1], node)
         return run.coerce(args[1], ty.v), new
     if attr == "update":
+        h = run.x.reg.stubs.get(("method2", ty.name, "update"))
+        if h is not None:
+            return h(run, d, args, kwargs, node)
         raise err("dict.update: use a stub")
     raise err(f"dict method {attr}")
 
